@@ -393,3 +393,124 @@ func implementsError(t types.Type) bool {
 	errT := types.Universe.Lookup("error").Type().Underlying().(*types.Interface)
 	return types.Implements(t, errT)
 }
+
+// expandExpr returns e with every identifier that names a local, single-assignment, side-effect-free definition
+// replaced by that definition (recursively): `body := f.buf[f.headSize:]; Encode(body)` is judged as
+// `Encode(f.buf[f.headSize:])`. New parent nodes carry no type information; leaves keep theirs.
+func (p *Program) expandExpr(fi *FuncInfo, e ast.Expr, depth int) ast.Expr {
+	if depth > 6 || e == nil {
+		return e
+	}
+	info := fi.Pkg.TypesInfo
+	switch x := e.(type) {
+	case *ast.ParenExpr:
+		return &ast.ParenExpr{X: p.expandExpr(fi, x.X, depth+1)}
+	case *ast.Ident:
+		obj := info.Uses[x]
+		v, ok := obj.(*types.Var)
+		if !ok || v.IsField() || v.Parent() == nil || v.Parent() == fi.Pkg.Types.Scope() {
+			return e
+		}
+		// parameters are not expanded
+		if fi.Obj != nil {
+			sig := fi.Obj.Type().(*types.Signature)
+			for i := 0; i < sig.Params().Len(); i++ {
+				if sig.Params().At(i) == v {
+					return e
+				}
+			}
+		}
+		if !singleAssigned(info, fi.Decl.Body, obj) {
+			return e
+		}
+		d := localDef(info, fi, x)
+		if d == nil || !pureExpr(info, d) {
+			return e
+		}
+		return &ast.ParenExpr{X: p.expandExpr(fi, d, depth+1)}
+	case *ast.BinaryExpr:
+		return &ast.BinaryExpr{X: p.expandExpr(fi, x.X, depth+1), Op: x.Op, OpPos: x.OpPos, Y: p.expandExpr(fi, x.Y, depth+1)}
+	case *ast.UnaryExpr:
+		return &ast.UnaryExpr{Op: x.Op, OpPos: x.OpPos, X: p.expandExpr(fi, x.X, depth+1)}
+	case *ast.IndexExpr:
+		return &ast.IndexExpr{X: p.expandExpr(fi, x.X, depth+1), Lbrack: x.Lbrack, Index: p.expandExpr(fi, x.Index, depth+1), Rbrack: x.Rbrack}
+	case *ast.SliceExpr:
+		return &ast.SliceExpr{X: p.expandExpr(fi, x.X, depth+1), Low: p.expandExpr(fi, x.Low, depth+1), High: p.expandExpr(fi, x.High, depth+1), Max: p.expandExpr(fi, x.Max, depth+1), Slice3: x.Slice3}
+	case *ast.SelectorExpr:
+		return &ast.SelectorExpr{X: p.expandExpr(fi, x.X, depth+1), Sel: x.Sel}
+	case *ast.CallExpr:
+		n := &ast.CallExpr{Fun: x.Fun, Lparen: x.Lparen, Ellipsis: x.Ellipsis, Rparen: x.Rparen}
+		for _, a := range x.Args {
+			n.Args = append(n.Args, p.expandExpr(fi, a, depth+1))
+		}
+		return n
+	}
+	return e
+}
+
+// pureExpr: evaluating e has no side effect and does not depend on calls other than conversions, len and cap.
+func pureExpr(info *types.Info, e ast.Expr) bool {
+	pure := true
+	ast.Inspect(e, func(n ast.Node) bool {
+		switch x := n.(type) {
+		case *ast.CallExpr:
+			if tv, ok := info.Types[x.Fun]; ok && tv.IsType() {
+				return true
+			}
+			if f := exprStr(x.Fun); f == "len" || f == "cap" {
+				return true
+			}
+			pure = false
+		case *ast.UnaryExpr:
+			if x.Op == token.ARROW {
+				pure = false
+			}
+		case *ast.FuncLit:
+			pure = false
+		}
+		return true
+	})
+	return pure
+}
+
+// canonText renders e with local copies expanded, without spaces and redundant parentheses.
+func (p *Program) canonText(fi *FuncInfo, e ast.Expr) string {
+	s := exprStr(p.expandExpr(fi, e, 0))
+	s = strings.ReplaceAll(s, " ", "")
+	// drop parentheses around simple operands: (f.buf[1]) -> f.buf[1]
+	for {
+		changed := false
+		for i := 0; i < len(s); i++ {
+			if s[i] != '(' {
+				continue
+			}
+			// find matching paren
+			depth, j := 0, i
+			for ; j < len(s); j++ {
+				if s[j] == '(' {
+					depth++
+				} else if s[j] == ')' {
+					depth--
+					if depth == 0 {
+						break
+					}
+				}
+			}
+			if j >= len(s) {
+				break
+			}
+			inner := s[i+1 : j]
+			simple := !strings.ContainsAny(inner, "+-*/%&|^<>=! ,")
+			prevIdent := i > 0 && (isIdentChar(s[i-1]) || s[i-1] == ']' || s[i-1] == ')')
+			if simple && !prevIdent {
+				s = s[:i] + inner + s[j+1:]
+				changed = true
+				break
+			}
+		}
+		if !changed {
+			break
+		}
+	}
+	return s
+}
